@@ -22,9 +22,13 @@ import (
 
 	xpv1 "github.com/crossplane/crossplane-runtime/apis/common/v1"
 	"github.com/crossplane/crossplane-runtime/pkg/resource"
+	uclaim "github.com/crossplane/crossplane-runtime/pkg/resource/unstructured/claim"
 	ucomposite "github.com/crossplane/crossplane-runtime/pkg/resource/unstructured/composite"
+	"github.com/crossplane/crossplane-runtime/pkg/resource/unstructured/reference"
+	"github.com/crossplane/crossplane-runtime/pkg/fieldpath"
 
 	v1 "github.com/crossplane/crossplane/apis/apiextensions/v1"
+	"github.com/crossplane/crossplane/internal/controller/apiextensions/claim"
 	"github.com/crossplane/crossplane/internal/controller/apiextensions/composite"
 )
 
@@ -42,7 +46,10 @@ type c05Res struct {
 }
 
 type c05Scn struct {
-	Kind     string    `json:"kind"` // "xr"
+	// kind "claim": one claim reconcile against a bound XR
+	XRConds    []c05Cond `json:"xrConds"`
+	ClaimTypes []string  `json:"claimTypes"`
+	Kind     string    `json:"kind"` // "xr" | "claim"
 	Old      []c05Cond `json:"old"`
 	Composed []c05Res  `json:"composed"`
 	Explicit string    `json:"explicit"` // "unset" "true" "false"
@@ -213,16 +220,127 @@ func c05Run(s c05Scn) (c05Obs, []Mon) {
 	return obs, mons
 }
 
+var c05ClaimGVK = schema.GroupVersionKind{Group: "example.org", Version: "v1", Kind: "Thing"}
+
+func c05GenClaim(r *Rng) c05Scn {
+	statuses := []string{"True", "False", "Unknown"}
+	s := c05Scn{Kind: "claim", Explicit: "unset", Err: "none"}
+	seen := map[string]bool{}
+	for i, n := 0, r.Intn(3); i < n; i++ {
+		t := Pick(r, []string{"Ready", "Synced", "Custom", "DatabaseReady"})
+		if seen[t] {
+			continue
+		}
+		seen[t] = true
+		s.Old = append(s.Old, c05Cond{Type: t, Status: Pick(r, statuses), Reason: Pick(r, []string{"Old", "Available", "Waiting"})})
+	}
+	seen = map[string]bool{}
+	for i, n := 0, r.Intn(4); i < n; i++ {
+		t := Pick(r, []string{"Ready", "Ready", "Synced", "Custom", "DatabaseReady"})
+		if seen[t] {
+			continue
+		}
+		seen[t] = true
+		s.XRConds = append(s.XRConds, c05Cond{Type: t, Status: Pick(r, statuses), Reason: Pick(r, []string{"Available", "Creating", "Fn"})})
+	}
+	for _, t := range []string{"Custom", "DatabaseReady", "Ready", "Missing"} {
+		if r.Chance(1, 3) {
+			s.ClaimTypes = append(s.ClaimTypes, t)
+		}
+	}
+	return s
+}
+
+// c05RunClaim runs the real claim reconciler once against a bound XR.
+func c05RunClaim(s c05Scn) (c05Obs, []Mon) {
+	st := NewStore(runtime.NewScheme())
+	st.Namespaced[c05ClaimGVK.GroupKind()] = true
+	xr := ucomposite.New(ucomposite.WithGroupVersionKind(c05XRGVK))
+	xr.SetName("xr1")
+	xr.SetLabels(map[string]string{"crossplane.io/claim-name": "claim", "crossplane.io/claim-namespace": "ns"})
+	xr.SetClaimReference(&reference.Claim{APIVersion: "example.org/v1", Kind: "Thing", Namespace: "ns", Name: "claim"})
+	for _, c := range s.XRConds {
+		xr.SetConditions(xpv1.Condition{Type: xpv1.ConditionType(c.Type), Status: corev1.ConditionStatus(c.Status), Reason: xpv1.ConditionReason(c.Reason), LastTransitionTime: metav1.Unix(1, 0)})
+	}
+	if len(s.ClaimTypes) > 0 {
+		ts := []any{}
+		for _, t := range s.ClaimTypes {
+			ts = append(ts, t)
+		}
+		_ = fieldpath.Pave(xr.Object).SetValue("status.claimConditionTypes", ts)
+	}
+	st.Seed(xr)
+	cm := uclaim.New(uclaim.WithGroupVersionKind(c05ClaimGVK))
+	cm.SetName("claim")
+	cm.SetNamespace("ns")
+	cm.SetFinalizers([]string{"finalizer.apiextensions.crossplane.io"})
+	cm.SetResourceReference(&reference.Composite{APIVersion: "example.org/v1", Kind: "XThing", Name: "xr1"})
+	for _, c := range s.Old {
+		cm.SetConditions(xpv1.Condition{Type: xpv1.ConditionType(c.Type), Status: corev1.ConditionStatus(c.Status), Reason: xpv1.ConditionReason(c.Reason), LastTransitionTime: metav1.Unix(1, 0)})
+	}
+	st.Seed(cm)
+	r := claim.NewReconciler(st, resource.CompositeClaimKind(c05ClaimGVK), resource.CompositeKind(c05XRGVK))
+	var mons []Mon
+	if p := Guard(func() {
+		_, _ = r.Reconcile(context.Background(), reconcile.Request{NamespacedName: types.NamespacedName{Namespace: "ns", Name: "claim"}})
+	}); p != "" {
+		mons = append(mons, Mon{Sig: "C05:panic", Why: p})
+	}
+	obs := c05Obs{Conds: []c05OCond{}, ClaimTypes: []string{}}
+	for _, w := range st.Log {
+		if w.Verb == "update" && w.Sub == "status" && w.Applied && w.GK == "Thing.example.org" {
+			obs.Wrote = true
+		}
+	}
+	got := uclaim.New()
+	got.SetUnstructuredContent(st.Peek(c05ClaimGVK.GroupKind(), "ns", "claim").Object)
+	status := map[string]string{}
+	cs := xpv1.ConditionedStatus{}
+	_ = fieldpath.Pave(got.Object).GetValueInto("status", &cs)
+	for _, c := range cs.Conditions {
+		obs.Conds = append(obs.Conds, c05OCond{Type: string(c.Type), Status: string(c.Status), Reason: string(c.Reason)})
+		status[string(c.Type)] = string(c.Status)
+	}
+	sort.Slice(obs.Conds, func(i, j int) bool { return obs.Conds[i].Type < obs.Conds[j].Type })
+	xrReady := false
+	for _, c := range s.XRConds {
+		if c.Type == "Ready" && c.Status == "True" {
+			xrReady = true
+		}
+	}
+	if status["Ready"] == "True" && !xrReady {
+		mons = append(mons, Mon{Sig: "C05:claim-ready-without-xr-ready", Why: "claim reports Ready=True although the bound XR it observed is not Ready=True"})
+	}
+	return obs, mons
+}
+
 func init() {
 	Register("C05", func(c *Ctx) {
 		for _, raw := range c.Corpus {
 			var s c05Scn
 			if err := jsonUnmarshalStrict(raw, &s); err == nil {
+				if s.Kind == "claim" {
+					obs, mons := c05RunClaim(s)
+					c.Emit(s, obs, mons, "corpus")
+					continue
+				}
 				obs, mons := c05Run(s)
 				c.Emit(s, obs, mons, "corpus")
 			}
 		}
 		for i := 0; i < c.N; i++ {
+			if i%4 == 3 {
+				s := c05GenClaim(c.Rng)
+				obs, mons := c05RunClaim(s)
+				rd := "absent"
+				for _, x := range s.XRConds {
+					if x.Type == "Ready" {
+						rd = x.Status
+					}
+				}
+				c.Emit(s, obs, mons, fmt.Sprintf("claim/xrReady=%s/types=%d", rd, len(s.ClaimTypes)))
+				continue
+			}
 			s := c05Gen(c.Rng)
 			obs, mons := c05Run(s)
 			cls := fmt.Sprintf("err=%s/explicit=%s/n=%d/fn=%d", s.Err, s.Explicit, len(s.Composed), len(s.FnConds))
